@@ -13,7 +13,7 @@ import itertools
 from fractions import Fraction as F
 
 from ..core import Family, Result, viol
-from ..chooser import explore
+from ..chooser import explore, run_with
 from ..refs import c19_ref as ref
 from ..refs.c19_ref import INF, NINF, R, V, ipow
 
@@ -128,6 +128,10 @@ UNSET = '<tolerance not configured>'
 DEFAULT_TOLERANCE = 1e-12       # docs/grading_math/sum_grader.md
 
 
+def _user_uf(t):
+    return t * t + 1
+
+
 def executions(prob):
     """
     Runs the problem once for every combination of RNG draws.  Yields (xs, obs):
@@ -158,6 +162,10 @@ def executions(prob):
             variables.append('x')
             sample_from['x'] = mitxgraders.DiscreteSet(tuple(xvals))
         if prob.get('instr'):
+            # the author also defines an ordinary and a random function
+            cfg['user_functions'] = dict(cfg.get('user_functions', {}), uf=_user_uf)
+            if prob.get('randfunc'):
+                cfg['user_functions']['rf'] = mitxgraders.RandomFunction()
             variables.append('c')
             sample_from['c'] = mitxgraders.DiscreteSet((5,))
             cfg['instructor_vars'] = ['c', 'pi']
@@ -170,7 +178,12 @@ def executions(prob):
             return ('construct', [c.__name__ for c in type(e).__mro__], str(e)[:300])
         return observe(g, prob['input'])
 
-    for ch, obs in explore(body, bound=None):
+    if prob.get('randfunc'):
+        # the coefficients of a random function are many continuous draws: one execution with the default answers
+        runs = [run_with(body)]
+    else:
+        runs = explore(body, bound=None)
+    for ch, obs in runs:
         if xvals:
             kind = 'choice/%d' % len(xvals)
             xs = [xvals[c] for (k, n), c in zip(ch.points, ch.choices) if k == kind]
@@ -254,13 +267,13 @@ def judge(fam, prob, expected_of, nontrivial, sig_of=None, desc=None):
 
 def describe_prob(prob):
     d = {k: prob[k] for k in ('answers', 'positions', 'even_odd', 'tolerance', 'infty_val', 'infty_val_fact',
-                              'user_fact', 'samples', 'xvals', 'instr', 'input') if prob.get(k) is not None}
+                              'user_fact', 'samples', 'xvals', 'instr', 'randfunc', 'input') if prob.get(k) is not None}
     return d
 
 
 # ======================================================================================== 1. equivalence
 
-TRANSFORMS = ('same', 'swap', 'rename', 'rename_prime', 'shift_up', 'shift_dn', 'reverse', 'expr_limits', 'plus_one',
+TRANSFORMS = ('same', 'swap', 'rename', 'rename_prime', 'rename_upper', 'rename_mixed', 'shift_up', 'shift_dn', 'reverse', 'expr_limits', 'plus_one',
               'upper+1', 'upper+2', 'lower-1', 'lower-2', 'offset1')
 
 
@@ -277,6 +290,10 @@ def student_rewrite(a, b, p, skey, tkey):
         var = 'k'
     elif tkey == 'rename_prime':
         var = "t_1'"
+    elif tkey == 'rename_upper':
+        var = 'N'
+    elif tkey == 'rename_mixed':
+        var = "kMax_2'"
     elif tkey in ('shift_up', 'shift_dn', 'offset1'):
         s = {'shift_up': 1 if p == 0 else 2, 'shift_dn': -2, 'offset1': 1}[tkey]
         var = 'm'
@@ -680,6 +697,7 @@ BAD_VARS = (('variable-declared', 'x'), ('variable-constant', 'i'), ('variable-c
             ('variable-constant', 'e'), ('variable-constant', 'infty'), ('variable-constant', 'pi'),
             ('variable-function', 'sin'), ('variable-function', 'sqrt'), ('variable-invalid-name', '2k'),
             ('variable-invalid-name', 'k k'), ('variable-invalid-name', '_k'), ('blank', ''),
+            ('variable-user-function', 'uf'), ('variable-random-function', 'rf'),
             ('instructor-name-as-dummy', 'c'))
 
 
@@ -725,6 +743,7 @@ class StudentErrors(Family):
         prob = {'answers': {'lower': '0', 'upper': '3', 'summand': 'c*n+x', 'summation_variable': AUTHOR_VAR},
                 'positions': {k: i + 1 for i, k in enumerate(subset)},
                 'even_odd': 0, 'tolerance': 1e-9, 'samples': 2, 'xvals': XVALS, 'instr': True,
+                'randfunc': kind == 'variable-random-function',
                 'input': [fields[k] for k in subset]}
         return prob, kind
 
